@@ -65,30 +65,61 @@ class Api:
         v.old, v.new = list(old), list(new)
         return v
 
+    CUSTOM_MODES = [False, "fields", "names", "order", "names_order"]
+
     def fresh(self, custom=False):
-        """the same API on system objects nobody has used yet; custom=True: systems constructed with user-supplied
-        base scalars and base vectors (vector FIELDS declared with a formal point argument, as test_coordinate_systems.py does)"""
+        """the same API on system objects nobody has used yet.  custom: False = default constructors; otherwise systems
+        constructed with user-supplied base scalars and base vectors (vector FIELDS declared with a formal point argument,
+        as test_coordinate_systems.py does): 'fields' = natural labels; 'names' = display names of the scalars permuted /
+        taken from another convention (the library is positional); 'order' = scalars created in reverse order of their
+        position; 'names_order' = both"""
         if not custom:
             return self.view([k() for k in self.classes], [k() for k in self.classes])
-        return self.view(self.custom_systems(), self.custom_systems())
+        if custom is True:
+            custom = "fields"
+        return self.view(self.custom_systems(custom), self.custom_systems(custom))
 
-    def custom_systems(self):
+    def custom_systems(self, mode="fields"):
         # pylint: disable=import-outside-toplevel
         from symplyphysics import Symbol, units, angle_type
         from symplyphysics.core.experimental.vectors import VectorFunction, VectorSymbol
-        L = units.length
-        cart = self.classes[0](
-            base_scalars=[Symbol("ux", L, real=True), Symbol("uy", L, real=True), Symbol("uz", L, real=True)],
-            base_vectors=[VectorSymbol("ui"), VectorSymbol("uj"), VectorSymbol("uk")])
+        L, A = units.length, angle_type
+        perm = "names" in mode
+        rev = "order" in mode
+        labels = {0: ["ux", "uy", "uz"] if not perm else ["y", "x", "z"],                    # Cartesian: x <-> y
+                  1: ["urho", "uphi", "uzz"] if not perm else ["z", "rho", "phi"],           # cylindrical: rotated labels
+                  2: ["ur", "utheta", "uph"] if not perm else ["r", "phi", "theta"]}         # spherical: mathematics convention
+        specs = {0: [(L, {"real": True})] * 3,
+                 1: [(L, {"nonnegative": True}), (A, {"real": True}), (L, {"real": True})],
+                 2: [(L, {"nonnegative": True}), (A, {"nonnegative": True}), (A, {"real": True})]}
+
+        def scalars(kind):
+            idx = [2, 1, 0] if rev else [0, 1, 2]            # creation order
+            made = {}
+            for i in idx:
+                dim, kw = specs[kind][i]
+                made[i] = Symbol(labels[kind][i], dim, **kw)
+            return [made[0], made[1], made[2]]
+        cart = self.classes[0](base_scalars=scalars(0), base_vectors=[VectorSymbol("ui"), VectorSymbol("uj"), VectorSymbol("uk")])
         formal = self.AppliedPoint(cart.base_scalars, cart)        # "the generic point P"
-        cyl = self.classes[1](
-            base_scalars=[Symbol("urho", L, nonnegative=True), Symbol("uphi", angle_type, real=True), Symbol("uzz", L, real=True)],
+        cyl = self.classes[1](base_scalars=scalars(1),
             base_vectors=[VectorFunction("ue_rho", arguments=(formal,)), VectorFunction("ue_phi", arguments=(formal,)), VectorSymbol("ue_z")])
-        sph = self.classes[2](
-            base_scalars=[Symbol("ur", L, nonnegative=True), Symbol("utheta", angle_type, nonnegative=True), Symbol("uph", angle_type, real=True)],
+        sph = self.classes[2](base_scalars=scalars(2),
             base_vectors=[VectorFunction("ue_r", arguments=(formal,)), VectorFunction("ue_theta", arguments=(formal,)),
                           VectorFunction("ue_ph", arguments=(formal,))])
         return [cart, cyl, sph]
+
+    def at_counter_boundary(self, kind, offset):
+        """a default-constructed system of `kind` whose three automatically named base scalars straddle the next power
+        of ten of the library's symbol counter (SYM999, SYM1000, SYM1001 ...): the counter is only ever moved FORWARD"""
+        from symplyphysics.core.symbols import id_generator as ig  # pylint: disable=import-outside-toplevel
+        cur = ig._ids.get("SYM", 0)  # pylint: disable=protected-access
+        power = 10
+        while power - 3 <= cur:
+            power *= 10
+        ig._ids["SYM"] = power - offset  # pylint: disable=protected-access
+        sys_ = self.classes[kind]()
+        return sys_, [str(b.name) for b in sys_.base_scalars]
 
     @staticmethod
     def bvs_at(system, point):
@@ -298,13 +329,13 @@ def spec_checks(base_api: Api):
 
     def wrap(pred):
         def w(inp):
-            api.renew(bool(inp.get("custom")))
+            api.renew(inp.get("custom") or False)
             return pred(inp)
         return w
     def wrapg(g):
         def w(rng):
             inp = g(rng)
-            inp["custom"] = rng.random() < 0.5      # systems built with user-supplied base scalars / base vector fields
+            inp["custom"] = rng.choice(Api.CUSTOM_MODES)   # how the systems are constructed (see Api.fresh)
             return inp
         return w
     return {k: (wrapg(g), wrap(p)) for k, (g, p) in checks.items()}
@@ -511,8 +542,9 @@ def build(api: Api, gen: Gen):
         return True
 
     E = xs[3:6]
-    for tag, ap in (("", api), ("u", api.fresh(custom=True))):
-        what = "" if not tag else " [systems built with user base scalars / base vector fields]"
+    for tag, ap in (("", api), ("u", api.fresh(custom="fields")), ("n", api.fresh(custom="names_order"))):
+        what = {"": "", "u": " [systems built with user base scalars / base vector fields]",
+                "n": " [user base scalars with permuted display names, created in reverse order]"}[tag]
         for (a, b) in PAIRS:
             na, nb = LOW[a], LOW[b]
             A, B = SYSN[a], SYSN[b]
@@ -534,9 +566,11 @@ def build(api: Api, gen: Gen):
                 f"convert_vector(c0*e0 + c1*(e1 + c2*e2), {na} point, {nb}){what}", 3, "R",
                 f"dotv (convert_vector {A} {B} (let '(c0, c1, c2) := u in (c0, c1, c1 * c2)) v) w",
                 proof="intros @INTRO@ H. unfold @NAME@. vp_ecorr_vec H.", hyp=f"regular {A} v")
-    for a in range(3):
-        leg(f"lame_{LOW[a]}", lambda p, q, r, a=a: api.lame(a, [p, q, r]), f"{LOW[a]}.lame_coefficients", 1, "V3", f"lame {SYSN[a]} u")
-        leg(f"jacobian_{LOW[a]}", lambda p, q, r, a=a: api.jacobian(a, [p, q, r]), f"{LOW[a]}.jacobian", 1, "R", f"jacobian {SYSN[a]} u")
+        for a in range(3):
+            leg(f"{tag}lame_{LOW[a]}", lambda p, q, r, a=a, ap=ap: ap.lame(a, [p, q, r]), f"{LOW[a]}.lame_coefficients{what}", 1, "V3",
+                f"lame {SYSN[a]} u")
+            leg(f"{tag}jacobian_{LOW[a]}", lambda p, q, r, a=a, ap=ap: ap.jacobian(a, [p, q, r]), f"{LOW[a]}.jacobian{what}", 1, "R",
+                f"jacobian {SYSN[a]} u")
 
     def have(*names):
         return all(n in gen.legs for n in names)
@@ -690,6 +724,50 @@ def history_stream(ctx, api: Api):
     if seqs:
         ctx.sample({"history_sequence": [hist_describe(x) for x in seqs[len(NONTRIVIAL)]]})
     return len(seqs), steps
+
+def creation_stream(ctx, api: Api):
+    """systems whose automatically named base scalars straddle a power of ten of the symbol counter (their NAMES then
+    sort differently from their positions), as old or as new system of a conversion; convert_point / convert_vector are
+    compared with the independent python statement of positions and unit vectors"""
+    rng = ctx.rng
+    E = sp.symbols("E0:3")
+    n = 0
+    for t in range(ctx.pick(12, 24)):
+        a, b = NONTRIVIAL[t % len(NONTRIVIAL)]
+        straddle_new = (t // len(NONTRIVIAL)) % 2 == 0
+        offset = 3 if t % 2 == 0 else 2
+        v = api.fresh()
+        kind = b if straddle_new else a
+        sys_, names = api.at_counter_boundary(kind, offset)
+        if straddle_new:
+            v.new[b] = sys_
+        else:
+            v.old[a] = sys_
+        p, c = gen_regular(rng, a), [away(rng), away(rng), away(rng)]
+        n += 1
+        inp = {"pair": f"{LOW[a]}->{LOW[b]}", "scalar_names_of_the_" + ("new" if straddle_new else "old") + "_system": names, "coords": p, "components": c}
+        try:
+            newp = [num(e) for e in v.cpoint(a, b, fl(p))]
+            out = v.cvec(a, b, fl(c), fl(p), E)
+            newc = [num(out.xreplace({E[j]: 1 if j == k else 0 for j in range(3)})) for k in range(3)]
+            fa, fb = m_frame(a, p), m_frame(b, newp)
+            want_pos, got_pos = list(m_pos(a, p)), list(m_pos(b, newp))
+            want_c = [sum(c[i] * fa[i][k] for i in range(3)) for k in range(3)]
+            got_c = [sum(newc[i] * fb[i][k] for i in range(3)) for k in range(3)]
+            ok = close(got_pos, want_pos) and close(got_c, want_c)
+            obs = {"new_coordinates": newp, "their_cartesian_position": got_pos, "new_components": newc, "their_cartesian_components": got_c}
+        except Exception as e:  # pylint: disable=broad-except
+            ok, obs, want_pos, want_c = False, {"exception": f"{type(e).__name__}: {str(e)[:300]}"}, list(m_pos(a, p)), None
+        if not ok:
+            ctx.violation(f"C15:creation:{LOW[a]}_{LOW[b]}:{'new' if straddle_new else 'old'}",
+                f"conversion {inp['pair']} with base scalars named {names} (created across a power of ten of the symbol counter) at {p}, c={c}: "
+                f"observed {obs}, expected position {want_pos}, components {want_c}",
+                {"kind": "creation", "input": dict(inp, a=a, b=b, straddle_new=straddle_new, offset=offset), "observed": obs,
+                 "expected": {"cartesian_position": want_pos, "cartesian_components": want_c},
+                 "theorem_or_tie": "conversions are positional: independent of the names / creation order of the base scalars"}, found_input=True)
+    ctx.sample({"creation_case": inp})
+    return n
+
 
 # ---------------------------------------------------------------------------------------------------------
 # dispatch table
@@ -887,6 +965,9 @@ def run(ctx):
     n_hist, hist_steps = history_stream(ctx, api)
     n_eval += hist_steps
     ctx.coverage["history_sequences"] = n_hist
+    n_cre = creation_stream(ctx, api)
+    n_eval += n_cre
+    ctx.coverage["creation_order_cases"] = n_cre
 
     # dispatch table
     rows = dispatch_rows(api)
@@ -948,6 +1029,8 @@ def run(ctx):
         "history stream: 6 fixed-shape + seeded random sequences of 3-6 calls (convert_point / convert_vector / express_base_scalars / "
         "express_base_vectors, both directions, at most two pairs of system objects per sequence so that objects are reused at different "
         "points), each result compared with the same call on fresh system objects; "
+        "predicate inputs carry a seeded construction mode (default / user fields / permuted display names / reversed creation order / both); "
+        "creation stream: default systems whose scalar names straddle a power of ten of the symbol counter, as old or new system; "
         "distinct = distinct (check, input); every input is non-trivial (off the singular sets, no zero component)")
     ctx.coverage["spec_checks"] = sorted(checks)
     ctx.coverage["spec_points_per_check"] = n_pts
@@ -955,6 +1038,17 @@ def run(ctx):
 
 def replay(ctx, rep):
     api = Api()
+    if rep.get("kind") == "creation":
+        i = rep["input"]
+        a, b = i["a"], i["b"]
+        v = api.fresh()
+        sys_, names = api.at_counter_boundary(b if i["straddle_new"] else a, i["offset"])
+        (v.new if i["straddle_new"] else v.old)[b if i["straddle_new"] else a] = sys_
+        newp = [num(e) for e in v.cpoint(a, b, fl(i["coords"]))]
+        got, want = list(m_pos(b, newp)), list(m_pos(a, i["coords"]))
+        print(f"convert_point {i['pair']} with base scalars named {names} at {i['coords']}: new coordinates {newp}")
+        print(f"   Cartesian position {got}, expected {want} ->", "holds" if close(got, want) else "FAILS")
+        return 0 if close(got, want) else 1
     if rep.get("kind") == "history":
         seq = rep["sequence"]
         got = hist_run(api, seq)
